@@ -1366,7 +1366,7 @@ func c13HuntedRules(ctx *Ctx, r *Report, ts *tmplSet, branches []tmplBranch) {
 			file+": the scalar branch compares every scalar with `!=`, the bytes kind included, which the type formatter declares []byte: `resource.B != other.B` — invalid operation: slice can only be compared to nil — the package does not type-check with generate_equal")
 		r.Check(strings.Contains(txt, ".Equal("), "skeleton/equality-time", "type_equality_check scalar branch handles time.Time", token.NoPos, "date-time values are compared with Equal",
 			file+": date-time fields are declared time.Time and compared with `!=`, which also compares the *Location pointers: two values decoded from the same document are unequal as soon as the offset is not UTC or a whole hour (+05:30)")
-	}	// (d) a field referring to a constant is declared with the constant's own type (formatField drops the pointer):
+	} // (d) a field referring to a constant is declared with the constant's own type (formatField drops the pointer):
 	// the struct branch must not walk it as nullable
 	if p := ctx.Pkg("internal/jennies/golang"); p != nil {
 		substitutes := false
@@ -1484,4 +1484,3 @@ func c13HuntedRules(ctx *Ctx, r *Report, ts *tmplSet, branches []tmplBranch) {
 	r.Check(deepOK, "skeleton/equality-deepequal-at-reference", "type_equality_check DeepEqual branch: recursive collections", token.NoPos, "isRecursiveCollection selects the DeepEqual branch only for a reference",
 		file+": the reflect.DeepEqual branch is selected by isRecursiveCollection on any type, inline arrays and maps included: an optional `forest?: [...#Tree]` (omitempty) is compared with DeepEqual, which tells nil from empty — two values encoding to the same JSON are unequal; only the reference closing the loop needs DeepEqual")
 }
-
